@@ -49,7 +49,7 @@ ALPHA = {
     'build': 8, 'var': 1, 'cube': 1, 'apply': 5, 'ite': 1, 'quantify': 2,
     'let_const': 1, 'let_rename': 1, 'let_compose': 2, 'add_expr': 2,
     'drop': 4, 'gc': 3, 'swap': 2, 'sift': 1, 'reorder_to': 1,
-    'declare': 1, 'incref': 1, 'decref': 1, 'funcop': 2, 'traverse': 1,
+    'declare': 2, 'add_var': 3, 'full': 2, 'incref': 1, 'decref': 1, 'funcop': 2, 'traverse': 1,
     'file_roundtrip': 4, 'repeat': 2,
 }
 
@@ -76,6 +76,9 @@ def plan(tier, seed):
     for s in range(4 if tier == 'thorough' else 2):
         specs.append(dict(kind='algebra', seed=seed * 100 + 90 + s,
                           examples=1500 if tier == 'thorough' else 300))
+    for s in range(4 if tier == 'thorough' else 1):
+        specs.append(dict(kind='dddmp', seed=seed * 100 + 70 + s,
+                          examples=1500 if tier == 'thorough' else 200))
     for pi in range(3):
         for api in ('bdd', 'autoref'):
             specs.append(dict(kind='catalogue', prefix=pi, api=api,
@@ -134,6 +137,10 @@ def run(spec, out):
     if spec['kind'] == 'algebra':
         from . import c15
         return c15.run_algebra(spec, out)
+    if spec['kind'] == 'dddmp':
+        # a DDDMP load that fails, then a valid one (engine of C16)
+        from . import c16
+        return c16.run_random(dict(spec, poison_only=True), out)
     if spec['kind'] == 'random':
         H.run_random(spec, out, ALPHA, nontrivial)
     else:
@@ -178,4 +185,7 @@ def replay_into(case, out):
     if case.get('kind') == 'algebra':
         from . import c15
         return c15.replay_into(case, out)
+    if case.get('kind') == 'random' and 'poison' in case:
+        from . import c16
+        return c16.replay_into(case, out)
     return H.replay_into(case, out)
